@@ -29,6 +29,8 @@ def DEC2HEX(dec, places=DEFAULT):
             return error.NUM
     if dec < -549755813888 or dec > 549755813887:
         return error.NUM  # outside the 40-bit two's-complement range
+    if isinstance(dec, float) and dec == int(dec):
+        dec = int(dec)  # a whole number held as a float (510/2): hex() takes ints only
     if dec < 0:
         places = DEFAULT
         dec = dec + 1099511627776
